@@ -8,7 +8,7 @@
                     WAMT = {"comm","neg":b,"text","suffixed":b,"separated":b,"q":"n/d" (what the generator meant)}
      answer  ok \t FLAGS \t BALANCES \t ROWS \t STYLES      or   err \t KIND \t FLAGS
        FLAGS    = orderFree exactlyBalanced flattenAgrees intendedQuantities   (four 0/1 characters)
-       BALANCES = acct|own|family ; ...   (accounts sorted; own/family = comm~n/d,... sorted, zero dropped)
+       BALANCES = acct|own|family ; ...   (accounts sorted; own/family = comm~n/d~prec,... sorted, zero dropped; prec = precision counter)
        ROWS     = date|acct|comm~n/d ; ... (register sorted by date, stable; zero rows kept)
        STYLES   = comm|prec|PSTD flags ; ... (sorted by symbol)
    of.scan <0|1> <text>   the punctuation scan under the given DECIMAL_COMMA flag
@@ -116,7 +116,7 @@ def LoadErr.render : LoadErr → String
   | .includeDepth => "include-depth"
 
 def renderBal (b : Balance) : String :=
-  ",".intercalate (sortStr ((b.filter (fun a => a.q ≠ 0)).map (fun a => s!"{a.comm}~{ratStr a.q}")))
+  ",".intercalate (sortStr ((b.filter (fun a => a.q ≠ 0)).map (fun a => s!"{a.comm}~{ratStr a.q}~{a.prec}")))
 
 /-- every account with a posting, and every ancestor. -/
 def ancestors (a : String) : List String :=
